@@ -381,7 +381,11 @@ from ..through_time import make_rule as _mk_tt, make_t2 as _mk_t2
 _through_time = _mk_tt("C02")
 _small_edits = _mk_t2("C02")
 
-from .c18 import r2_parsing as _number_parsing              # signs, digits, powers of integer / float columns
+def _number_parsing(ctx):
+    from .c18 import r2_parsing, r9_digit_fast_path
+    r2_parsing(ctx)              # signs, digits, powers of integer / float columns
+    r9_digit_fast_path(ctx)      # the sign-less digit-matrix path of the buffer extractor is taken only for columns without any sign character
+
 def _selection_tables(ctx):
     from .c04 import r2_aligned_stores
     r2_aligned_stores(ctx)   # start/length/record tables stay aligned when lazy chunks are selected, compacted, concatenated
